@@ -5,7 +5,7 @@ from common import jhash, first_diff
 from pkgrun import *
 from gen.reserialize import rewrite
 
-PROF = profile(p_comments=0.5, p_core=0.7, p_header=0.5, p_footnotes=0.5, p_link=0.1, p_drawing=0.08, p_table=0.2, p_no_r_ns=0.0, p_form=0.08)
+PROF = profile(p_comments=0.5, p_core=0.7, p_header=0.6, p_footnotes=0.5, p_link=0.1, p_drawing=0.08, p_table=0.2, p_no_r_ns=0.0, p_form=0.08, p_same_image_name=0.4)
 RULE = ('generated packages (and real files of tests/resources in the thorough tier) x 2 random compositions of serialisation rewrites: transitional -> '
         'strict namespace URIs (prefixes kept), shuffled attribute order, whitespace / XML comments / processing instructions between elements '
         '(outside text and equation content; also inside property elements, relationships parts and the core-properties part), re-encoding '
